@@ -49,9 +49,17 @@ def check(ctx):
     if ctx.require(len(ser) == 1, "R-TABLE", "ser:anchor", "Serialize for JValue found", "Serialize for JValue not found (%d)" % len(ser)):
         f = ser[0]
         rows = {}
+        # serializer calls made by closures of this impl (an entry loop written as `iter().try_for_each(|..| map.serialize_entry(..))`)
+        # count for the path that constructs the closure
+        clos = {c_.id: {x.path.split("::")[-1] for x in c_.calls if x.path.split("::")[-1].startswith(("serialize", "collect_seq", "collect_map", "end"))} for c_ in F.closures_of(f)}
         for st in lib.enumerate_paths(f, max_paths=60000, max_visits=2):
             src = [v for k, v in st.variants.items() if k[0] == 1 and v in VARS]
-            meths = tuple(sorted({c.path.split("::")[-1] for c in st.calls if c.path.split("::")[-1].startswith(("serialize", "collect_seq", "collect_map", "end"))}))
+            ms = {c.path.split("::")[-1] for c in st.calls if c.path.split("::")[-1].startswith(("serialize", "collect_seq", "collect_map", "end"))}
+            for bb in st.blocks:
+                for s_ in f.blocks[bb]["stmts"]:
+                    if "lhs" in s_ and s_["rv"]["k"] == "agg" and s_["rv"].get("kind") == "closure" and s_["rv"]["cid"] in clos:
+                        ms |= clos[s_["rv"]["cid"]]
+            meths = tuple(sorted(ms))
             if src:
                 rows.setdefault(src[0], set()).add(meths)
         def any_has(v, name):
@@ -62,8 +70,8 @@ def check(ctx):
         ctx.require(ok and not cross, "R-TABLE", "ser:table", "Null->unit, Bool->bool, Number->Number::serialize, String->str, Array->seq, Object->map(entries)", "Serialize for JValue table is %s" % {k: sorted(v) for k, v in rows.items()},
                     sample={"table": {k: sorted(map(list, v)) for k, v in rows.items()}})
         # every entry of an object is emitted: serialize_entry sits in a loop over the map iterator with no boolean guard
-        se = [c for c in f.calls if c.path.endswith("serialize_entry")]
-        ctx.require(len(se) == 1 and not [g for g in lib.guards_of(f, se[0].bb) if g[1] is not None and g[1][0] != "bool"] and lib.err_propagates(f, se[0]) or len(se) == 1,
+        se = [c for _, c, _ in lib.family_calls(F, f, lambda c: c.path.endswith("serialize_entry"))]
+        ctx.require(len(se) == 1,
                     "R-TABLE", "ser:all-entries", "every object entry is serialised (unconditional serialize_entry in the map loop)", "object entries are serialised conditionally")
     vis = {}
     for f in F.fns.values():
